@@ -2,18 +2,24 @@ PROP = {
     "id": "C29",
     "coq_targets": ["Properties/C29.vo", "Extract/C29Extract.vo"],
     "properties_file": "Properties/C29.v",
-    "theorems": ["C29_present_iff_advertised", "C29_present_once", "C29_sources_exact"],
+    "theorems": ["C29_present_iff_advertised", "C29_present_once", "C29_sources_exact",
+                 "C29_presence_per_route_identity", "C29_client_events_map_consistently"],
     "allowed_axioms": [],
     "harness": "c29",
     "modelrun": {"name": "c29", "extracted": ["c29_model"], "driver": "ocaml/c29/c29_run.ml"},
     "tiers": {"quick": {"cases": 3000}, "thorough": {"cases": 150000}},
     "search_cases": 20000,
-    "rule": "histories of 3-24 add/remove/drop ops over <=3 sources and <=6 routes (pairs of routes share a prefix); "
-            "a case is non-trivial when it contains a repeated advertisement, a withdrawal of a multi-source route, "
-            "or a drop that removes something; distinct = distinct op sequences",
+    "rule": "histories of 3-24 add/remove/drop ops over <=3 sources and 2-5 routes drawn from a pool of 16 (static IPv4/IPv6; six BGP routes "
+            "for ONE prefix that differ in exactly one attribute best-path selection ignores - hash-distinct, Path.Equal; selection-distinct BGP "
+            "routes for the same prefix; IPv6 BGP), 60% driven directly on MergedLocRIB, 40% through the real risclient service loops on scripted "
+            "ObserveRIB streams (update / stream failure = source lost / reconnect); the observation counts for every pool route the Loc-RIB paths "
+            "that are exactly (Path.Compare) its path; a case is non-trivial when it contains a repeated advertisement, an advertisement while a "
+            "selection-equal other route of the prefix is installed, a withdrawal of a multi-source route, or a drop that removes something; "
+            "distinct = distinct (driver, op sequence)",
     "trusted_base": [
         "extraction (ExtrOcamlBasic only; no Extract Constant/Inductive of our own) + ocaml/common/conv.ml + ocaml/c29/c29_run.ml",
-        "Go harness harness/cmd/c29 (generator, observation of LocRIB.Get and Metrics, spec oracle)",
+        "Go harness harness/cmd/c29 (generator, scripted ObserveRIB streams + hook risclient/verif_hooks_c29.go exposing serviceLoop, "
+        "observation of LocRIB.Get and Metrics, spec oracle)",
         "modelled, not verified: sha1(proto.Marshal(route)) is injective on the generated routes (hash = identity on route ids); "
         "the Loc-RIB below is the list of installed route ids; sync.RWMutex as mutual exclusion (single-threaded histories)",
     ],
